@@ -1,9 +1,207 @@
 import GqlVerif.Driver.Loop
-open GqlVerif
+import GqlVerif.Model.Attr
+/-!
+Model driver of C18.
+
+Token trees `<tok>`:  `(i "name")` ident · `(p ",")` punct · `(s "value")` string literal (its *value*)
+· `(o "text")` any other literal · `(g paren|bracket|brace|none <tok>*)` group.
+`<input>` = `(input <attr>*)`, `<attr>` = `(attr "path" (list <tok>*))` | `(attr "path" nolist)`.
+`<items>` = `(items <item>*)`, `<item>` = `(kv "k" "v")` | `(flag "f")` | `(list "k" "v"*)`.
+`<style>` = `(style <trailing> <listTrailing> <delim>)`.  `<dir>` = `()` | `("dir")`.  `<paths>` = `(("text" true|false)*)`:
+the result of `syn::parse_str::<syn::Path>` for every string in the attribute (parameter of the model).
+
+  (extract-attr <input> "key")        → (ok "value") | (err <kind>)
+  (ident-exists <input> "name")       → (ok) | (err <kind>)
+  (extract-attr-list <input> "key")   → (ok "v"*) | (err <kind>)
+  (scan-all <input> ("key"*))         → (all (attr <r>*) (ident <r>*) (list <r>*))   -- the three functions for every key
+  (options <input> <dir> <paths>)     → (ok <dump>) | (err <kind>)          -- `Attr.derive`
+  (spec-options <items> <dir> <paths>)→ (ok <dump>) | (err <kind>)          -- `Attr.specDerive`
+  (render <style> <items>)            → (toks <tok>*)
+  (wf <items>)                        → (true) | (false)                    -- `WfItems`
+
+`<dump>` = (query "p") (schema "p") (variables_derives <opt>) (response_derives <opt>) (deprecation allow|deny|warn)
+ (deprecation_set true|false) (normalization none|rust) (custom_scalars_module <opt>) (extern_enums "v"*)
+ (fragments_other_variant b) (skip_serializing_none b)
+-/
+open GqlVerif GqlVerif.Attr
+
+namespace C18Driver
+
+def decDelim : Sexp → Option Delim
+  | .atom "paren" => some .paren
+  | .atom "bracket" => some .bracket
+  | .atom "brace" => some .brace
+  | .atom "none" => some .none
+  | _ => none
+
+def encDelim : Delim → Sexp
+  | .paren => .atom "paren"
+  | .bracket => .atom "bracket"
+  | .brace => .atom "brace"
+  | .none => .atom "none"
+
+mutual
+  partial def decTok : Sexp → Option Tok
+    | .list [.atom "i", .str s] => some (.ident s)
+    | .list [.atom "p", .str s] => match s.toList with
+      | [c] => some (.punct c)
+      | _ => none
+    | .list [.atom "s", .str s] => some (.lit s)
+    | .list [.atom "o", .str s] => some (.litOther s)
+    | .list (.atom "g" :: d :: ts) => do
+      let d ← decDelim d
+      let ts ← decToks ts
+      pure (.group d ts)
+    | _ => none
+  partial def decToks : List Sexp → Option (List Tok)
+    | [] => some []
+    | t :: ts => do
+      let t ← decTok t
+      let ts ← decToks ts
+      pure (t :: ts)
+end
+
+mutual
+  partial def encTok : Tok → Sexp
+    | .ident s => .list [.atom "i", .str s]
+    | .punct c => .list [.atom "p", .str (String.singleton c)]
+    | .lit s => .list [.atom "s", .str s]
+    | .litOther s => .list [.atom "o", .str s]
+    | .group d ts => .list (.atom "g" :: encDelim d :: encToks ts)
+  partial def encToks : List Tok → List Sexp
+    | [] => []
+    | t :: ts => encTok t :: encToks ts
+end
+
+def decAttr : Sexp → Option Attribute
+  | .list [.atom "attr", .str p, .atom "nolist"] => some { path := p, tokens := none }
+  | .list [.atom "attr", .str p, .list (.atom "list" :: ts)] => do
+    let ts ← decToks ts
+    pure { path := p, tokens := some ts }
+  | _ => none
+
+def decInput : Sexp → Option Input
+  | .list (.atom "input" :: as) => as.mapM decAttr
+  | _ => none
+
+def decStrs : List Sexp → Option (List String)
+  | [] => some []
+  | .str s :: rest => (decStrs rest).map (s :: ·)
+  | _ => none
+
+def decItem : Sexp → Option Item
+  | .list [.atom "kv", .str k, .str v] => some (.kv k v)
+  | .list [.atom "flag", .str f] => some (.flag f)
+  | .list (.atom "list" :: .str k :: vs) => (decStrs vs).map (.listAttr k)
+  | _ => none
+
+def decItems : Sexp → Option (List Item)
+  | .list (.atom "items" :: is) => is.mapM decItem
+  | _ => none
+
+def decStyle : Sexp → Option Style
+  | .list [.atom "style", t, lt, d] => do
+    let t ← t.asBool?
+    let lt ← lt.asBool?
+    let d ← decDelim d
+    pure { trailing := t, listTrailing := lt, delim := d }
+  | _ => none
+
+def decDir : Sexp → Option (Option String)
+  | .list [] => some none
+  | .list [.str d] => some (some d)
+  | _ => none
+
+def decPaths : Sexp → Option (List (String × Bool))
+  | .list es => es.mapM (fun
+      | .list [.str s, b] => b.asBool?.map (fun b => (s, b))
+      | _ => none)
+  | _ => none
+
+def pathOkOf (table : List (String × Bool)) (s : String) : Bool := (table.lookup s).getD false
+
+def encErr : Err → Sexp
+  | .missingAttribute => .atom "missing-attribute"
+  | .notFound => .atom "not-found"
+  | .badLiteral => .atom "bad-literal"
+  | .badValue => .atom "bad-value"
+  | .envMissing => .atom "env-missing"
+  | .badPath => .atom "bad-path"
+
+def encRes {α : Type} (f : α → List Sexp) : Res α → Sexp
+  | .ok a => .list (.atom "ok" :: f a)
+  | .error e => .list [.atom "err", encErr e]
+
+def encOpt : Option String → List Sexp
+  | none => []
+  | some s => [.str s]
+
+def encDep : Deprecation → Sexp
+  | .allow => .atom "allow"
+  | .deny => .atom "deny"
+  | .warn => .atom "warn"
+
+def encNorm : Normalization → Sexp
+  | .none => .atom "none"
+  | .rust => .atom "rust"
+
+def dump (d : Derived) : List Sexp :=
+  let o := d.options
+  [ .list [.atom "query", .str (String.ofList o.queryFile)],
+    .list [.atom "schema", .str (String.ofList d.schemaPath)],
+    .list (.atom "variables_derives" :: encOpt o.variablesDerives),
+    .list (.atom "response_derives" :: encOpt o.responseDerives),
+    .list [.atom "deprecation", encDep o.effectiveDeprecation],
+    .list [.atom "deprecation_set", Sexp.mkBool o.deprecation.isSome],
+    .list [.atom "normalization", encNorm o.normalization],
+    .list (.atom "custom_scalars_module" :: encOpt o.customScalarsModule),
+    .list (.atom "extern_enums" :: o.externEnums.map .str),
+    .list [.atom "fragments_other_variant", Sexp.mkBool o.fragmentsOtherVariant],
+    .list [.atom "skip_serializing_none", Sexp.mkBool o.skipSerializingNone] ]
+
+def bad (msg : String) : Sexp := .list [.atom "bad-request", .str msg]
 
 def handle (req : Sexp) : Sexp :=
   match req with
+  | .list [.atom "extract-attr", inp, .str k] =>
+    match decInput inp with
+    | some i => encRes (fun v => [.str v]) (extractAttr i k)
+    | none => bad "input"
+  | .list [.atom "ident-exists", inp, .str k] =>
+    match decInput inp with
+    | some i => encRes (fun _ => []) (identExists i k)
+    | none => bad "input"
+  | .list [.atom "extract-attr-list", inp, .str k] =>
+    match decInput inp with
+    | some i => encRes (fun vs => vs.map .str) (extractAttrList i k)
+    | none => bad "input"
+  | .list [.atom "scan-all", inp, .list keys] =>
+    match decInput inp, decStrs keys with
+    | some i, some ks =>
+      .list [.atom "all",
+        .list (.atom "attr" :: ks.map (fun k => encRes (fun v => [.str v]) (extractAttr i k))),
+        .list (.atom "ident" :: ks.map (fun k => encRes (fun _ => []) (identExists i k))),
+        .list (.atom "list" :: ks.map (fun k => encRes (fun vs => vs.map .str) (extractAttrList i k)))]
+    | _, _ => bad "scan-all"
+  | .list [.atom "options", inp, dir, paths] =>
+    match decInput inp, decDir dir, decPaths paths with
+    | some i, some d, some t => encRes dump (derive d (pathOkOf t) i)
+    | _, _, _ => bad "options"
+  | .list [.atom "spec-options", items, dir, paths] =>
+    match decItems items, decDir dir, decPaths paths with
+    | some i, some d, some t => encRes dump (specDerive d (pathOkOf t) i)
+    | _, _, _ => bad "spec-options"
+  | .list [.atom "render", st, items] =>
+    match decStyle st, decItems items with
+    | some s, some i => .list (.atom "toks" :: encToks (render s i))
+    | _, _ => bad "render"
+  | .list [.atom "wf", items] =>
+    match decItems items with
+    | some i => .list [Sexp.mkBool (decide (WfItems i))]
+    | none => bad "items"
   | .list (.atom "echo" :: xs) => .list (.atom "echo" :: xs)
-  | _ => .list [.atom "bad-request", .str "unknown request"]
+  | _ => bad "unknown request"
 
-def main : IO Unit := runLoop handle
+end C18Driver
+
+def main : IO Unit := runLoop C18Driver.handle
